@@ -277,7 +277,7 @@ def main(tier):
             '(program, config, start, variant, step-kind prefix)')
     V = Verdict('C03', tier, rule)
     V.minima = {'steps_stepi': 40, 'steps_step': 40, 'steps_next': 40, 'steps_finish': 15, 'places_checked': 100} if tier == 'quick' else \
-        {'steps_stepi': 1000, 'steps_step': 1000, 'steps_next': 1500, 'steps_finish': 400, 'places_checked': 4000}
+        {'steps_stepi': 700, 'steps_step': 700, 'steps_next': 1000, 'steps_finish': 300, 'places_checked': 3000}
     V.assumptions = ['only steps that start inside generated user functions are judged (the reference line table covers user units)',
                      'upper bounds only: stopping earlier on another is_stmt row of the same line is accepted',
                      'rows inside inlined-subroutine ranges and line-0 rows are never the bound j*']
@@ -286,7 +286,7 @@ def main(tier):
         specs = [(i, s, cfgs[i % 2], tier) for i in range(6) for s in range(10)]
     else:
         cfgs = [dict(tc=tc, opt=o, dwarf=d, pie=True) for tc in ('1.89', '1.95') for o in (0, 1) for d in (4, 5)]
-        specs = [(i, s, cfgs[(i + s) % len(cfgs)], tier) for i in range(30) for s in range(30)]
+        specs = [(i, s, cfgs[(i + s) % len(cfgs)], tier) for i in range(25) for s in range(25)]
     progs = sorted({(s[0], tuple(sorted(s[2].items())), tier == 'thorough') for s in specs})
     common.parallel_map(_prep, progs)
     for res in common.safe_map(run_case, specs):
